@@ -26,7 +26,7 @@ RULE = ('complete tables; (a) case = (argument list, quoting style per argument,
 ASSUMPTIONS = ['(a) arguments of 1..3 characters over {a, space, tab, \', ", \\, e-acute}; lists of 1, 2 and (sub-pool) 3 arguments',
                '(b)/(c) run as the current user (root: X_OK needs an x bit); (c) uses real processes and real time as a liveness bound only']
 REQUIRED_FLAGS = {'has_special': 1, 'lead_or_trail': 1, 'shadowed': 1, 'probe_answered': 1, 'program_word_alone': 1,
-                  'bare_name_env_without_path': 1, 'second_launch_differs_from_first': 1}
+                  'bare_name_env_without_path': 1, 'second_launch_differs_from_first': 1, 'preexec_fn_with_ignore_sighup': 1}
 ALPHA = ['a', ' ', '\t', "'", '"', '\\', '\xe9']
 
 
@@ -435,6 +435,10 @@ def environ_latin1():
                   v.encode('utf-8', 'surrogateescape').decode('latin-1') for k, v in os.environ.items())
 
 
+def _preexec():
+    os.umask(0o027)
+
+
 def run_launch(task, acc, only=None):
     import pexpect
     base = tempfile.mkdtemp(prefix='c13l', dir='/verif/.scratch')
@@ -521,7 +525,9 @@ def run_launch(task, acc, only=None):
             # sees its own request, whatever the first one asked for
             confs = [dict(), dict(dimensions=(10, 33)), dict(dimensions=(50, 132)), dict(dimensions=None),
                      dict(echo=False), dict(cwd=workdir), dict(env={'C13': 'one', 'PATH': '/usr/bin:/bin'}),
-                     dict(env={'C13B': 'two'}), dict(ignore_sighup=True), dict(encoding='utf-8', dimensions=(7, 9), echo=False)]
+                     dict(env={'C13B': 'two'}), dict(ignore_sighup=True), dict(encoding='utf-8', dimensions=(7, 9), echo=False),
+                     # the caller's own preexec_fn next to the settings pexpect implements through preexec_fn itself
+                     dict(ignore_sighup=True, preexec_fn=_preexec), dict(preexec_fn=_preexec, echo=False, dimensions=(3, 5))]
 
             def launch(conf):
                 return probe_once(acc, lambda: pexpect.spawn(sys.executable, [probe, 'x'], timeout=60, **conf), conf)
@@ -543,6 +549,8 @@ def run_launch(task, acc, only=None):
                         continue
                     if which == 'second' and a != b:
                         acc.flags['second_launch_differs_from_first'] += 1
+                    if conf.get('preexec_fn') and conf.get('ignore_sighup'):
+                        acc.flags['preexec_fn_with_ignore_sighup'] += 1
                     want = wanted(conf)
                     bad = [k for k in want if not isinstance(got, dict) or got.get(k) != want[k]]
                     acc.outcomes['pairs:%s' % ('ok' if not bad else 'bad')] += 1
